@@ -200,6 +200,21 @@ func rootOf(v ssa.Value) ssa.Value {
 	}
 }
 
+// sameElem: the same value, or the same element of the same slice (x[i] written
+// twice is two IndexAddr instructions: go/ssa does no common-subexpression
+// elimination).
+func sameElem(a, b ssa.Value) bool {
+	if a == b {
+		return true
+	}
+	ia, ok1 := a.(*ssa.IndexAddr)
+	ib, ok2 := b.(*ssa.IndexAddr)
+	if ok1 && ok2 {
+		return ia.Index == ib.Index && rootOf(ia.X) == rootOf(ib.X)
+	}
+	return false
+}
+
 // accessPath renders the field selections stripped by rootOf (".A.B").
 func accessPath(v ssa.Value) string {
 	p := ""
@@ -587,13 +602,23 @@ func c30Build(c *Ctx, sp string) {
 				return false
 			}
 			call, ok := l.X.(*ssa.Call)
-			if !ok || calleeName(call.Common()) != "(time.Time).After" {
+			if !ok {
 				return false
 			}
-			exp := strings.HasSuffix(v.S.Sym(call.Common().Args[0]), ".Metadata.Expiry") ||
-				strings.HasSuffix(accessPath(call.Common().Args[0]), ".Metadata.Expiry")
-			same := base != nil && rootOf(call.Common().Args[0]) == base
-			now, isCall := call.Common().Args[1].(*ssa.Call)
+			// expiry.After(now), or the mirror image now.Before(expiry)
+			var expV, nowV ssa.Value
+			switch calleeName(call.Common()) {
+			case "(time.Time).After":
+				expV, nowV = call.Common().Args[0], call.Common().Args[1]
+			case "(time.Time).Before":
+				expV, nowV = call.Common().Args[1], call.Common().Args[0]
+			default:
+				return false
+			}
+			exp := strings.HasSuffix(v.S.Sym(expV), ".Metadata.Expiry") ||
+				strings.HasSuffix(accessPath(expV), ".Metadata.Expiry")
+			same := base != nil && sameElem(rootOf(expV), base)
+			now, isCall := nowV.(*ssa.Call)
 			return exp && same && isCall && calleeName(now.Common()) == "time.Now"
 		}}
 		ws := e.Unguarded(nil, []ssa.Instruction{ap}, []Guard{g})
